@@ -73,6 +73,8 @@ class Cons(fm.TimeComponent):
                 self.inputs.add(name=n, time=self.time, grid=fm.NoGrid(), units=None)
             elif k == "static":
                 self.inputs.add(name=n, time=None, grid=fm.NoGrid(), units=None, static=True)
+            elif k == "cb_static":
+                self.inputs.add(fm.CallbackInput(callback=lambda caller, t: None, name=n, time=None, grid=fm.NoGrid(), units=None, static=True))
             else:
                 self.inputs.add(fm.CallbackInput(callback=lambda caller, t: None, name=n, time=self.time, grid=fm.NoGrid(), units=None))
         self.create_connector()
@@ -99,9 +101,9 @@ def predicate(t):
         rules.append("unconnected_input")
     sinks = [(ch1, s1)] + ([(ch1[:f] + ch2, s2)] if f is not None else [])
     for path, s in sinks:
-        if s == "static" and src != "static":
+        if s in ("static", "cb_static") and src != "static":
             rules.append("static_input_from_non_static_output")
-        if src == "pull" and (any(a in NEEDS_PUSH for a in path) or s == "cb"):
+        if src == "pull" and (any(a in NEEDS_PUSH for a in path) or s in ("cb", "cb_static")):
             rules.append("push_needing_element_behind_pull_only_source")
     if listing != "all":
         rules.append("component_missing")
@@ -218,7 +220,7 @@ def topologies(tier):
     chains = [list(c) for n in range(0, (3 if q else 4)) for c in itertools.product(kinds, repeat=n)]
     for src in ("push", "static", "pull"):
         for ch1 in chains:
-            for s1 in ("pull", "static", "cb"):
+            for s1 in ("pull", "static", "cb", "cb_static"):
                 for listing in ("all", "no_producer", "no_consumer"):
                     for extra in (False, True):
                         out.append(dict(src=src, ch1=ch1, s1=s1, fan=None, ch2=[], s2="pull", listing=listing, extra=extra))
@@ -226,9 +228,17 @@ def topologies(tier):
                     continue
                 for f in range(len(ch1) + 1):
                     for ch2 in [[]] + [[k] for k in kinds]:
-                        for s2 in ("pull", "static", "cb"):
+                        for s2 in ("pull", "static", "cb", "cb_static"):
                             for listing in (("all",) if (q and len(ch1) == 2) else ("all", "no_producer")):
                                 out.append(dict(src=src, ch1=ch1, s1=s1, fan=f, ch2=ch2, s2=s2, listing=listing, extra=False))
+    # long chains over {pass-through, no-branch marker, push-based} with the fan-out far below the no-branch adapter
+    for n in (3, 4):
+        for ch1 in itertools.product(("S", "N", "L"), repeat=n):
+            for f in range(n + 1):
+                for src in ("push", "pull"):
+                    out.append(dict(src=src, ch1=list(ch1), s1="pull", fan=f, ch2=[], s2="pull", listing="all", extra=False))
+                    if f == n:
+                        out.append(dict(src=src, ch1=list(ch1), s1="cb", fan=f, ch2=["S"], s2="pull", listing="all", extra=False))
     return out
 
 
